@@ -125,6 +125,22 @@ pub fn run(ctx: &Ctx, rep: &mut Report) {
             }
         }
     }
+    // just below the limit, one wrapper of every kind around the recursive call: a wrapper that used
+    // up call depth (or a deeper native frame per call) would show here
+    for kind in 0..8usize {
+        for (name, src) in shapes(1, kind, Some(900)) {
+            if !matches!(name.as_str(), "self" | "into" | "param") {
+                continue;
+            }
+            k += 1;
+            rep.case(&format!("bounded {} depth=900 nesting=1 kind={}", name, kind), true);
+            let (code, out, err) = run_bin(&ctx.blots_release_bin, &src, &format!("n{}", k));
+            if code != Some(0) || out.trim() != "{\"r\":900.0}" {
+                rep.finding("oracle", "bounded-recursion-fails", &src,
+                    &format!("exit {:?} stdout {:?} stderr {:?} expected {{\"r\":900.0}}", code, out.chars().take(160).collect::<String>(), err.chars().take(200).collect::<String>()), "c18.bounded");
+            }
+        }
+    }
     // correspondence on the plain shapes (the model's own recursion is bounded by its fuel)
     for (name, src) in shapes(0, 0, None).into_iter().chain(shapes(1, 0, Some(50)).into_iter()) {
         if misbehaved.contains(&name) {
